@@ -292,6 +292,7 @@ var (
 	errStringTooLong      = errors.New("character string exceeds maximum length (255)")
 	errParamOutOfOrder    = errors.New("parameter out of order")
 	errTooLongSVCBValue   = errors.New("value too long (>65535 bytes)")
+	errCompressedTarget   = errors.New("compressed name in SVCB resource data")
 )
 
 // Internal constants.
